@@ -71,6 +71,12 @@ func main() {
 		rules.DebugEncodingSiblingsCount(c)
 		return
 	}
+	if os.Args[1] == "debug-shared" {
+		c := core.NewCtx("DBG", "quick")
+		rules.DebugShared(c)
+		rules.DebugEntryLocks(c)
+		return
+	}
 	if os.Args[1] == "debug-layout" {
 		c := core.NewCtx("DBG", "quick")
 		rules.DebugLayout(c)
